@@ -555,6 +555,9 @@ class World:
         """shutil.copy2: open src, open dst (truncating), pump, copystat."""
         src = self.norm(src)
         dst = self.norm(dst)
+        if dst in self.dirs:
+            # shutil.copy2 copies INTO an existing directory
+            dst = dst + "/" + posixpath.basename(src)
         if src == dst:
             raise shutil.SameFileError(
                 "{!r} and {!r} are the same file".format(src, dst))
